@@ -43,6 +43,12 @@ CHECKS = [
               "five descriptor kinds and both typecheckers are decorated and driven with well-typed, ill-typed and non-binding argument lists; "
               "every observable is compared with the undecorated twin.",
          note="annotation vocabulary int/str/1-d array/none (typedness decided by construction); beartype's sampling of variadic items avoided by never placing ill-typed values there"),
+    dict(property_id="C05", level="exploration", design_ref="DESIGN.md §5 C05",
+         technique="Hypothesis-generated programs of nested decorated calls / context blocks / exits interpreted against real decorated functions; invariant after every node: print_bindings transcript == model context stack",
+         text="Programs up to depth 5 mixing all decorator spellings, methods, dataclass __init__, (shared) context blocks, manual and {arg} checks, "
+              "exits by return/Exception/BaseException/ill-typed parameter/ill-typed return and generator/coroutine creation are executed; after "
+              "every node the caller's and callee's bindings must equal the model stack, and top level must stay stateless.",
+         note="model: a stack of dicts; observation through print_bindings and check verdicts; single-threaded (threads are C06)"),
 ]
 _pending = "check not built yet in this round (will be claimed once its machinery is committed)"
 NOT_APPLICABLE = [dict(property_id=f"C{i:02d}", reason=_pending) for i in range(1, 21)
